@@ -1,0 +1,91 @@
+//go:build verif
+
+package kube
+
+// Contracts checked by /verif (govc). Comment-only file: it adds no code.
+
+// ---- C02: identity of resources and the set algebra on resource lists (resource.go)
+
+//@ ghost func sameObject(a *resource.Info, b *resource.Info) bool = a.Name == b.Name && a.Namespace == b.Namespace && a.Mapping.GroupVersionKind.Kind == b.Mapping.GroupVersionKind.Kind && a.Mapping.GroupVersionKind.Group == b.Mapping.GroupVersionKind.Group
+//@ ghost func infosOK(r ResourceList) bool = forall j int :: 0 <= j && j < len(r) ==> r[j] != nil && r[j].Mapping != nil
+//@ ghost func containsObject(r ResourceList, info *resource.Info) bool = exists j int :: 0 <= j && j < len(r) && sameObject(r[j], info)
+
+//@ func isMatchingInfo
+//@   props C02
+//@   requires a != nil && b != nil && a.Mapping != nil && b.Mapping != nil
+//@   ensures [name-namespace-kind-group] result <==> sameObject(a, b)
+
+//@ func ResourceList.Contains
+//@   props C02
+//@   requires infosOK(r) && info != nil && info.Mapping != nil
+//@   ensures [iff] result <==> containsObject(r, info)
+//@   loop 1 invariant forall j int :: 0 <= j && j < #iter ==> !sameObject(r[j], info)
+
+//@ func ResourceList.Get
+//@   props C02
+//@   requires infosOK(r) && info != nil && info.Mapping != nil
+//@   ensures [found] containsObject(r, info) ==> result != nil && sameObject(result, info) && (exists j int :: 0 <= j && j < len(r) && r[j] == result)
+//@   ensures [absent] !containsObject(r, info) ==> result == nil
+//@   loop 1 invariant forall j int :: 0 <= j && j < #iter ==> !sameObject(r[j], info)
+
+//@ func (*ResourceList).Append
+//@   props C02
+//@   requires r != nil
+//@   ensures len(*r) == old(len(*r)) + 1 && (*r)[len(*r) - 1] == val
+//@   ensures forall j int :: 0 <= j && j < old(len(*r)) ==> (*r)[j] == old((*r)[j])
+
+//@ func ResourceList.Difference$1
+//@   props C02
+//@   requires infosOK(rs) && info != nil && info.Mapping != nil
+//@   ensures [not-in-other-list] result <==> !containsObject(rs, info)
+
+// ---- C02: which API calls Client.update issues (client.go). The API server is a ghost state:
+// Aapplied / Adeleted are the sets of resource infos for which a create-or-patch / delete
+// request was issued.
+
+//@ ghost var Aapplied set[ref]
+//@ ghost var Adeleted set[ref]
+
+//@ func createResource
+//@   props C02
+//@   trusted
+//@   modifies Aapplied
+//@   ensures Aapplied == store(old(Aapplied), info, true)
+
+//@ func updateResource
+//@   props C02
+//@   trusted
+//@   modifies Aapplied
+//@   ensures Aapplied == store(old(Aapplied), target, true)
+
+//@ func deleteResource
+//@   props C02
+//@   trusted
+//@   modifies Adeleted
+//@   ensures result == nil ==> Adeleted == store(old(Adeleted), info, true)
+//@   ensures result != nil ==> Adeleted == old(Adeleted)
+
+//@ func ResourceList.Difference
+//@   props C02
+//@   trusted
+//@   requires infosOK(r) && infosOK(rs)
+//@   ensures [only-missing] forall j int :: 0 <= j && j < len(result) ==> result[j] != nil && result[j].Mapping != nil && (exists i int :: 0 <= i && i < len(r) && r[i] == result[j]) && !containsObject(rs, result[j])
+//@   ensures [all-missing] forall i int :: 0 <= i && i < len(r) && !containsObject(rs, r[i]) ==> (exists j int :: 0 <= j && j < len(result) && result[j] == r[i])
+//@   ensures [nothing-touched] Aapplied == old(Aapplied) && Adeleted == old(Adeleted)
+
+//@ func (*Client).update$1
+//@   props C02
+//@   requires info != nil && info.Mapping != nil && infosOK(original) && res != nil
+//@   ensures [error-passthrough] err != nil ==> result == err && Aapplied == old(Aapplied)
+//@   ensures [applies-only-this-resource] Aapplied == old(Aapplied) || Aapplied == store(old(Aapplied), info, true)
+//@   ensures [success-means-applied-or-update-error-recorded] result == nil ==> Aapplied[info]
+//@   ensures [never-deletes] Adeleted == old(Adeleted)
+
+//@ func (*Client).update
+//@   props C02
+//@   requires c != nil && infosOK(original) && infosOK(target)
+//@   ensures [deletes-only-removed-resources] forall x ref :: Adeleted[x] && !old(Adeleted)[x] ==> (exists i int :: 0 <= i && i < len(original) && original[i] == x) && !containsObject(target, x)
+//@   ensures [result-always] result0 != nil
+//@   loop 1 invariant [deleted-so-far] forall x ref :: Adeleted[x] && !old(Adeleted)[x] ==> (exists j int :: 0 <= j && j < #iter && #range[j] == x)
+//@   loop 1 invariant [candidates] forall j int :: 0 <= j && j < len(#range) ==> #range[j] != nil && #range[j].Mapping != nil && (exists i int :: 0 <= i && i < len(original) && original[i] == #range[j]) && !containsObject(target, #range[j])
+//@   loop 1 invariant [res] res != nil
